@@ -23,12 +23,18 @@ import (
 
 // zzPersistence: memory session / subscription / unack stores (the real ones) and a
 // recording queue per session (the real queues are C10's subject).
-type zzPersistence struct{ queues map[string][]*zzRecQueue }
+type zzPersistence struct {
+	queues   map[string][]*zzRecQueue
+	blocking bool // queues whose Read blocks while nothing is queued
+}
 
 func (p *zzPersistence) Open() error  { return nil }
 func (p *zzPersistence) Close() error { return nil }
 func (p *zzPersistence) NewQueueStore(c config.Config, n queue.Notifier, id string) (queue.Store, error) {
 	q := &zzRecQueue{}
+	if p.blocking {
+		q.block = make(chan struct{})
+	}
 	p.queues[id] = append(p.queues[id], q)
 	return q, nil
 }
